@@ -147,60 +147,76 @@ Proof. exact toy_replicated. Qed.
 (* ---- the builder: set_engine_seed, build() twice, builder reuse (model: Goose/Builder.v) ---- *)
 (* set_engine_seed: an integer seed is the corresponding PRNG key - same builder, hence the same result of
    every later sequence of builder calls *)
-Theorem C10_engine_seed_int_equiv : forall mstate (prngkey : Z -> key) jitter_apply z (b : builder mstate),
-  b_set_engine_seed mstate prngkey (IntSeed z) b = b_set_engine_seed mstate prngkey (KeySeed (prngkey z)) b
+Theorem C10_engine_seed_int_equiv : forall mstate (prngkey : Z -> key) jdict jn jitter_apply z (b : builder mstate jdict),
+  b_set_engine_seed mstate prngkey jdict (IntSeed z) b = b_set_engine_seed mstate prngkey jdict (KeySeed (prngkey z)) b
   /\ forall sv bv s nch pre post,
-       b_script mstate prngkey jitter_apply sv bv s nch (pre ++ BSetEngineSeed (IntSeed z) :: post)
-       = b_script mstate prngkey jitter_apply sv bv s nch (pre ++ BSetEngineSeed (KeySeed (prngkey z)) :: post).
+       b_script mstate prngkey jdict jn jitter_apply sv bv s nch (pre ++ BSetEngineSeed (IntSeed z) :: post)
+       = b_script mstate prngkey jdict jn jitter_apply sv bv s nch (pre ++ BSetEngineSeed (KeySeed (prngkey z)) :: post).
 Proof. exact engine_seed_int_equiv_full. Qed.
 Print Assumptions C10_engine_seed_int_equiv.
 
 (* the installed engine key is the given key itself, split once per chain; the constructor's own engine
    key handed back changes nothing *)
-Theorem C10_engine_seed_is_used_as_given : forall mstate (prngkey : Z -> key) jitter_apply bv s (b b' : builder mstate) e,
-  b_build mstate jitter_apply bv (b_set_engine_seed mstate prngkey s b) = Some (e, b') ->
-  ei_seeds e = map (fun c => split (seed_root prngkey s) (bd_nch _ b) c) (seq 0 (bd_nch _ b)).
+Theorem C10_engine_seed_is_used_as_given : forall mstate (prngkey : Z -> key) jdict jn jitter_apply bv s
+    (b b' : builder mstate jdict) e,
+  b_build mstate jdict jn jitter_apply bv (b_set_engine_seed mstate prngkey jdict s b) = Some (e, b') ->
+  ei_seeds e = map (fun c => split (seed_root prngkey s) (bd_nch _ _ b) c) (seq 0 (bd_nch _ _ b)).
 Proof. exact set_engine_seed_seeds. Qed.
 Print Assumptions C10_engine_seed_is_used_as_given.
 
-Theorem C10_engine_seed_default_noop : forall mstate (prngkey : Z -> key) s nch,
-  b_set_engine_seed mstate prngkey (KeySeed (b_engine (seed_root prngkey s))) (b_new mstate prngkey s nch)
-  = b_new mstate prngkey s nch.
+Theorem C10_engine_seed_default_noop : forall mstate (prngkey : Z -> key) jdict s nch,
+  b_set_engine_seed mstate prngkey jdict (KeySeed (b_engine (seed_root prngkey s))) (b_new mstate prngkey jdict s nch)
+  = b_new mstate prngkey jdict s nch.
 Proof. exact set_engine_seed_default_noop. Qed.
 Print Assumptions C10_engine_seed_default_noop.
 
 (* build() does not change the builder's configuration; building twice gives the same engine inputs
    (per-chain keys and jittered initial states), also at the end of any sequence of builder calls *)
-Theorem C10_build_idempotent : forall mstate jitter_apply (b b' : builder mstate) e,
-  b_build mstate jitter_apply BuildPure b = Some (e, b') ->
-  b' = b /\ b_build mstate jitter_apply BuildPure b' = Some (e, b').
+Theorem C10_build_idempotent : forall mstate jdict jn jitter_apply (b b' : builder mstate jdict) e,
+  b_build mstate jdict jn jitter_apply BuildPure b = Some (e, b') ->
+  b' = b /\ b_build mstate jdict jn jitter_apply BuildPure b' = Some (e, b').
 Proof. exact build_idempotent_full. Qed.
 Print Assumptions C10_build_idempotent.
 
-Theorem C10_script_build_twice : forall mstate (prngkey : Z -> key) jitter_apply sv s nch ops e,
-  b_script mstate prngkey jitter_apply sv BuildPure s nch (ops ++ [BBuild]) = Some e ->
-  b_script mstate prngkey jitter_apply sv BuildPure s nch (ops ++ [BBuild; BBuild]) = Some e.
+Theorem C10_script_build_twice : forall mstate (prngkey : Z -> key) jdict jn jitter_apply sv s nch ops e,
+  b_script mstate prngkey jdict jn jitter_apply sv BuildPure s nch (ops ++ [BBuild]) = Some e ->
+  b_script mstate prngkey jdict jn jitter_apply sv BuildPure s nch (ops ++ [BBuild; BBuild]) = Some e.
 Proof. exact script_build_twice. Qed.
 Print Assumptions C10_script_build_twice.
 
 (* a build() that stores the jittered states back is refuted: the second engine starts from
    initial + 2 x jitter (witness for the variant BuildWritesJitter) *)
 Example C10_build_writes_back_refuted :
-  exists (b b1 b2 : builder Z) e1 e2,
-    b_build Z (fun ks ms => (ms + Z.of_nat (length ks) + 1)%Z) BuildWritesJitter b = Some (e1, b1)
-    /\ b_build Z (fun ks ms => (ms + Z.of_nat (length ks) + 1)%Z) BuildWritesJitter b1 = Some (e2, b2)
+  exists (b b1 b2 : builder Z nat) e1 e2,
+    b_build Z nat (fun n => n) (fun _ ks ms => (ms + Z.of_nat (length ks) + 1)%Z) BuildWritesJitter b = Some (e1, b1)
+    /\ b_build Z nat (fun n => n) (fun _ ks ms => (ms + Z.of_nat (length ks) + 1)%Z) BuildWritesJitter b1 = Some (e2, b2)
     /\ ei_seeds e1 = ei_seeds e2 /\ ei_states e1 = [12; 22]%Z /\ ei_states e2 = [14; 24]%Z.
 Proof. exact build_writes_back_refuted. Qed.
 
 (* builder reuse: set_initial_values replaces the states the builder held; the next build hands chain c
    jitter_c (init_c) of the NEW argument, whatever was set or built before (both build variants) *)
-Theorem C10_build_after_set_initial_values : forall mstate jitter_apply sv bv a (b b1 b2 : builder mstate) e c i0,
-  b_set_initial_values mstate sv a b = Some b1 -> b_build mstate jitter_apply bv b1 = Some (e, b2) ->
-  init_of mstate (bd_nch _ b) a c = Some i0 ->
+Theorem C10_build_after_set_initial_values : forall mstate jdict jn jitter_apply sv bv a (b b1 b2 : builder mstate jdict) e c i0,
+  b_set_initial_values mstate jdict sv a b = Some b1 -> b_build mstate jdict jn jitter_apply bv b1 = Some (e, b2) ->
+  init_of mstate (bd_nch _ _ b) a c = Some i0 ->
   nth_error (ei_states e) c
-  = Some (jitter_chain_g mstate jitter_apply (bd_jitter _ b) (bd_nch _ b) (bd_jit _ b) c i0).
+  = Some (jitter_chain_g mstate jdict jn jitter_apply (bd_jitter _ _ b) (bd_nch _ _ b) (bd_jit _ _ b) c i0).
 Proof. exact first_state_after_build. Qed.
 Print Assumptions C10_build_after_set_initial_values.
+
+(* set_jitter_fns: the last call wins (for the builder and inside any call sequence); None clears the jitter
+   functions set before: the next build hands over the un-jittered states *)
+Theorem C10_jitter_fns_last_wins : forall mstate (prngkey : Z -> key) jdict jn jitter_apply sv bv s nch pre post j1 j2,
+  b_script mstate prngkey jdict jn jitter_apply sv bv s nch (pre ++ BSetJitter j1 :: BSetJitter j2 :: post)
+  = b_script mstate prngkey jdict jn jitter_apply sv bv s nch (pre ++ BSetJitter j2 :: post).
+Proof. exact script_jitter_last_wins. Qed.
+Print Assumptions C10_jitter_fns_last_wins.
+
+Theorem C10_jitter_fns_none_clears : forall mstate jdict jn jitter_apply bv (b b' : builder mstate jdict) st e,
+  bd_states _ _ b = Some st ->
+  b_build mstate jdict jn jitter_apply bv (b_set_jitter_fns mstate jdict None b) = Some (e, b') ->
+  ei_states e = st /\ bd_jit _ _ b' = None.
+Proof. exact set_jitter_fns_none_clears. Qed.
+Print Assumptions C10_jitter_fns_none_clears.
 
 (* key hygiene for an engine key installed by set_engine_seed, provided it is unrelated to the builder's
    jitter key (the constructor's own keys are: default_keys_apart) *)
@@ -224,7 +240,7 @@ Proof. exact set_engine_seed_same_seed_collides. Qed.
 (* the default builder (constructor seed, set_initial_values, set_jitter_fns, build) followed by
    Engine(...) is the batched run all theorems above are about *)
 Theorem C10_built_default_is_batched : forall (w : world) (prngkey : Z -> key) v root nch jit a ei,
-  b_script (w_mstate w) prngkey (w_jitter_apply w) v BuildPure (KeySeed root) nch
+  b_script (w_mstate w) prngkey nat (fun n => n) (fun _ => w_jitter_apply w) v BuildPure (KeySeed root) nch
            [BSetInit a; BSetJitter jit; BBuild] = Some ei ->
   W_run_built w ei = W_run_batched w v root nch jit a.
 Proof. exact W_built_default_is_batched. Qed.
